@@ -18,6 +18,10 @@ pub struct Case {
     /// when present the case is an ill-conditioned f64 triangle (C03's triples): `g` is then ignored
     #[serde(default)]
     pub sliver: Option<[(f64, f64); 3]>,
+    /// when present the case is line work of horizontal segments whose lengths are k * 2^-e (e in 520..1000: the lengths are
+    /// ordinary doubles, their squares are not representable) at ordinary ordinates: (e, [(x0, k, y)]) - `g` is then ignored
+    #[serde(default)]
+    pub tiny: Option<(i32, Vec<(i64, i64, i64)>)>,
 }
 
 pub struct C06;
@@ -219,10 +223,12 @@ impl Property for C06 {
     const ID: &'static str = "C06";
     fn strategy(_tier: Tier) -> BoxedStrategy<Case> {
         let tree = member_strategy().prop_recursive(3, 12, 4, |inner| proptest::collection::vec(inner, 0..4).prop_map(G::Coll));
-        let lattice = (prop_oneof![3 => member_strategy(), 4 => tree], any::<u32>(), xf_strategy()).prop_map(|(g, flips, xf)| Case { g: flip_rings(&g, flips), xf, sliver: None });
+        let lattice = (prop_oneof![3 => member_strategy(), 4 => tree], any::<u32>(), xf_strategy()).prop_map(|(g, flips, xf)| Case { g: flip_rings(&g, flips), xf, sliver: None, tiny: None });
         // 1 case in 16: triangles whose area sits in the last bits (as Triangle, as Polygon, inside a collection)
-        let sliver = crate::props::c03::triple_strategy().prop_map(|t| Case { g: G::MultiPoint(vec![]), xf: Xf::ID, sliver: Some(t) });
-        prop_oneof![15 => lattice.boxed(), 1 => sliver.boxed()].boxed()
+        let sliver = crate::props::c03::triple_strategy().prop_map(|t| Case { g: G::MultiPoint(vec![]), xf: Xf::ID, sliver: Some(t), tiny: None });
+        let tiny = (520i32..1000, proptest::collection::vec((-8i64..9, 1i64..6, -20i64..21), 1..6))
+            .prop_map(|(e, segs)| Case { g: G::MultiPoint(vec![]), xf: Xf::ID, sliver: None, tiny: Some((e, segs)) });
+        prop_oneof![30 => lattice.boxed(), 2 => sliver.boxed(), 1 => tiny.boxed()].boxed()
     }
     fn quota(tier: Tier) -> u64 {
         tier.pick(3_000_000, 60_000_000)
@@ -248,6 +254,10 @@ impl Property for C06 {
         json!({"g": wkt(&c.g), "xf": c.xf})
     }
     fn check(c: &Case, obs: &mut Obs) {
+        if let Some((e, segs)) = &c.tiny {
+            check_tiny(*e, segs, obs);
+            return;
+        }
         if let Some(t) = &c.sliver {
             check_sliver(t, obs);
             return;
@@ -348,6 +358,51 @@ impl Property for C06 {
 
 /// The centroid of a (possibly very thin, possibly exactly flat) triangle is a finite point within rounding of the triangle:
 /// for a triangle with area it is the vertex mean, in every case it lies in the hull. Tolerance: 64 ulp of the largest ordinate.
+/// Horizontal segments of length k * 2^-e at ordinary ordinates, as MultiLineString, as a collection of Lines and LineStrings
+/// (with a Point member, which has no weight next to line work): the centroid is the length-weighted mean of the midpoints,
+/// x = 2^-e * sum(k (x0 + k/2)) / sum(k), y = sum(k y) / sum(k) - lengths enter linearly, their squares never.
+fn check_tiny(e: i32, segs: &[(i64, i64, i64)], obs: &mut Obs) {
+    use geo::{Geometry, GeometryCollection, Line, LineString, MultiLineString, Point};
+    if !(520..1000).contains(&e) || segs.is_empty() || segs.len() > 8 || segs.iter().any(|s| s.1 < 1 || s.1 > 8 || s.0.abs() > 64 || s.2.abs() > 1000) {
+        obs.label("skipped:out-of-domain");
+        return;
+    }
+    obs.label("sub:tiny-lengths");
+    obs.nontrivial();
+    let u = 2f64.powi(-e);
+    let sk: i64 = segs.iter().map(|s| s.1).sum();
+    // 2 * sum(k (x0 + k/2)) = sum(k (2 x0 + k))
+    let sx2: i64 = segs.iter().map(|s| s.1 * (2 * s.0 + s.1)).sum();
+    let sy: i64 = segs.iter().map(|s| s.1 * s.2).sum();
+    let want = (sx2 as f64 / (2.0 * sk as f64) * u, sy as f64 / sk as f64);
+    let co = |x: i64, y: i64| Coord { x: x as f64 * u, y: y as f64 };
+    let lines: Vec<Line<f64>> = segs.iter().map(|s| Line::new(co(s.0, s.2), co(s.0 + s.1, s.2))).collect();
+    let mls = MultiLineString::new(lines.iter().map(|l| LineString::from(vec![l.start, l.end])).collect());
+    let gc = GeometryCollection::new_from(
+        lines.iter().enumerate().map(|(i, l)| if i % 2 == 0 { Geometry::Line(*l) } else { Geometry::LineString(LineString::from(vec![l.start, l.end])) }).chain(std::iter::once(Geometry::Point(Point::new(1.0e6, -1.0e6)))).collect(),
+    );
+    let ctx = || format!("e={e} segments (x0, k, y)={:?}", segs);
+    let runs: Vec<(&str, Result<Option<Point<f64>>, crate::engine::PanicInfo>)> = vec![
+        ("centroid:MultiLineString", guard(std::panic::AssertUnwindSafe(|| mls.centroid()))),
+        ("centroid:GeometryCollection", guard(std::panic::AssertUnwindSafe(|| gc.centroid()))),
+        ("centroid:Geometry[MultiLineString]", guard(std::panic::AssertUnwindSafe(|| Geometry::MultiLineString(mls.clone()).centroid()))),
+    ];
+    for (name, r) in runs {
+        match r {
+            Ok(Some(p)) => {
+                obs.cmp();
+                // the ordinate (ordinary magnitude, weights k * 2^-e) is decisive; the abscissa is itself of the order 2^-e, its
+                // products with the lengths underflow (outside the domain, DESIGN section 8): it only has to be finite
+                let (xlo, xhi) = (segs.iter().map(|s| s.0).min().unwrap() as f64 * u, segs.iter().map(|s| s.0 + s.1).max().unwrap() as f64 * u);
+                let ok = p.x().is_finite() && (p.y() - want.1).abs() <= 1e-12 * want.1.abs().max(1.0);
+                obs.expect(ok, &format!("{name}|tiny-lengths|value"), || format!("got ({:e}, {}) want (~{:e} within [{:e}, {:e}], {}); {}", p.x(), p.y(), want.0, xlo, xhi, want.1, ctx()));
+            }
+            Ok(None) => obs.fail(format!("{name}|tiny-lengths|none-for-nonempty"), ctx()),
+            Err(pn) => obs.fail(format!("{name}|tiny-lengths|panic|{}", pn.site()), format!("{} {}", pn, ctx())),
+        }
+    }
+}
+
 fn check_sliver(t: &[(f64, f64); 3], obs: &mut Obs) {
     use geo::{Geometry, GeometryCollection, InteriorPoint, LineString, Polygon, Triangle};
     obs.label("sub:sliver");
